@@ -260,6 +260,64 @@ pub fn run(rep: &mut Rep) {
             }
         }
     }
+    // a message carrying several subscription identifiers, some of whose streams were dropped (the client notices a
+    // dropped stream only when it next routes to it): exactly once on every live stream, also across re-deliveries
+    rep.note("several identifiers: QoS 2 PUBLISH carrying the identifiers of 2-3 subscriptions of which any subset has a dropped (not yet noticed) stream, in every order, re-delivered before PUBREL, released, identifier reused");
+    let mut midx = total + 48_000_000;
+    for nsubs in 2..=3usize {
+        for dropped_mask in 0..(1u32 << nsubs) {
+            for perm in 0..(if nsubs == 2 { 2 } else { 6 }) {
+                let id = format!("multi:{nsubs}:{dropped_mask}:{perm}");
+                midx += 1;
+                if !rep.take(midx, &id) {
+                    continue;
+                }
+                let mut w = World::boot(WorldCfg { seed: rep.seed, ..Default::default() });
+                let mut subs = Vec::new();
+                for j in 0..nsubs {
+                    let a = w.start(j % 2, Kind::Sub);
+                    w.settle_check();
+                    w.deliver_ack(a, 1, 0, 0);
+                    w.settle_check();
+                    w.take_stream(a);
+                    subs.push(a);
+                }
+                for (j, &a) in subs.iter().enumerate() {
+                    if dropped_mask >> j & 1 == 1 {
+                        w.drop_stream(a);
+                    }
+                }
+                w.settle_check();
+                let orders2 = [[0usize, 1, 0], [1, 0, 0]];
+                let orders3 = [[0usize, 1, 2], [0, 2, 1], [1, 0, 2], [1, 2, 0], [2, 0, 1], [2, 1, 0]];
+                let ord: Vec<usize> = if nsubs == 2 { orders2[perm][..2].to_vec() } else { orders3[perm].to_vec() };
+                let sids: Vec<u32> = ord.iter().map(|&j| w.sub_id_of(subs[j]).unwrap_or(1)).collect();
+                for round in 0..2u16 {
+                    w.in_publish(2, 10, false, &sids, false);
+                    w.settle_check();
+                    w.in_publish(2, 10, true, &sids, false);
+                    w.settle_check();
+                    if round == 0 {
+                        w.in_publish(2, 10, false, &sids, false);
+                        w.settle_check();
+                    }
+                    w.in_pubrel(10);
+                    w.settle_check();
+                }
+                finish(&mut w);
+                rep.add("evaluations", 1);
+                rep.add("several_identifier_cases", 1);
+                rep.distinct(&("multi", nsubs, dropped_mask, perm));
+                for v in w.viols.iter_mut() {
+                    if v.sig.starts_with("stream/") && !v.props.contains(&"C09") {
+                        v.props = &["C09"];
+                    }
+                }
+                harvest(rep, &mut w, &id);
+                add_counters(rep, &w);
+            }
+        }
+    }
     // a session that has expired takes its unreleased identifiers with it: in the new session the same numbers belong to
     // new messages (DUP=0), each of which is delivered exactly once again
     rep.note("expired session: 1-3 inbound QoS 2 exchanges left unreleased, connection lost, session expired at reconnection (interval 0 / absent / elapsed), new subscription, the same identifiers reused for new messages, re-delivered once with DUP=1, released");
